@@ -88,6 +88,14 @@ def execute(line: str):
             "prop": lambda: _setprop(code, i),
         }
         extra["routes"] = {k: guarded(v, wire) for k, v in routes.items()}
+        # encoding must not depend on what was done to earlier results: mutate mutable results, encode again
+        def again():
+            for mk_ in (lambda: BitArray(**{code: i}), lambda: BitStream(**{code: i}), lambda: _setprop(code, i),
+                        lambda: bitstring.pack(code, i)):
+                m = mk_()
+                m.append("0b1"); m.invert()
+            return Bits(**{code: i})
+        extra["again"] = guarded(again, wire)
         return out, extra
     if op == "read":
         code, bits, pos = f[2], unwire(f[3]), int(f[4])
@@ -143,6 +151,8 @@ def oracle(line: str, out: str, extra: dict):
         for k, v in extra["routes"].items():
             if v != exp:
                 return f"{code}={i}: creation route {k} gives {v}, keyword route gives {out}"
+        if extra["again"] != exp:
+            return f"{code}={i}: after mutating earlier mutable results, encoding gives {extra['again']} instead of {exp}"
         return None
     if op == "read":
         code, bits, pos = f[2], unwire(f[3]), int(f[4])
